@@ -273,7 +273,18 @@ func (ci *index) findByIP(ip netip.Addr) (c *Persistent, found bool) {
 		return ci.uidToClient[uid], true
 	}
 
+	// The source address of a link-local client always has a zone, while the
+	// query log and the statistics, from which the identifiers are usually
+	// taken, don't have it.  So an identifier without a zone matches the
+	// address in any zone, unless there is one with exactly that zone.
 	ipWithoutZone := ip.WithZone("")
+	if ip != ipWithoutZone {
+		uid, found = ci.ipToUID[ipWithoutZone]
+		if found {
+			return ci.uidToClient[uid], true
+		}
+	}
+
 	ci.subnetToUID.Range(func(pref netip.Prefix, id UID) (cont bool) {
 		// Remove zone before checking because prefixes strip zones.
 		if pref.Contains(ipWithoutZone) {
